@@ -218,6 +218,41 @@ class Service(object):
             self.escaped_count += 1
             return Resp(599, {}, b'', escaped='%s: %s' % (type(e).__name__, e))
 
+    # -- pseudo requests (C19) -------------------------------------------------
+    def restart(self):
+        """What a process start does to the database: forget that this
+        process has synchronised and run deploy.update_database() again."""
+        from placement import deploy
+        from placement.objects import resource_class
+        from placement.objects import trait
+        trait._TRAITS_SYNCED = False
+        resource_class._RESOURCE_CLASSES_SYNCED = False
+        try:
+            deploy.update_database(self.conf)
+            return Resp(200, {}, b'')
+        except Exception as e:
+            self.escaped_count += 1
+            return Resp(599, {}, b'', escaped='%s: %s' % (type(e).__name__, e))
+        finally:
+            trait._TRAITS_SYNCED = True
+            resource_class._RESOURCE_CLASSES_SYNCED = True
+            self.engine.dispose()
+
+    def raw_sql(self, statements):
+        """Harness-side state preparation with the stdlib sqlite3 module."""
+        import sqlite3
+        con = sqlite3.connect(self.dbpath)
+        try:
+            for stmt in statements:
+                if isinstance(stmt, (list, tuple)):
+                    con.execute(stmt[0], stmt[1])
+                else:
+                    con.execute(stmt)
+            con.commit()
+        finally:
+            con.close()
+        return Resp(200, {}, b'')
+
     def close(self):
         if os.getpid() != self._creator_pid:
             return
